@@ -110,5 +110,18 @@ def wait (L : Lens U CondvarState) (M : Lens U MutexState) : Prog U LockRes := d
     | .waiting => K.panic "should not have been woken while in Waiting status"
     Mutex.lock M
 
+/-- `Condvar::wait_while(guard, condition)`: `while condition(&mut *guard) { guard = self.wait(guard)? }`
+— a poisoned re-lock leaves the loop at once -/
+def waitWhile (L : Lens U CondvarState) (M : Lens U MutexState) (cond : Nat → Bool) : Nat → Prog U LockRes
+  | 0 => K.panic "model: wait_while fuel exhausted"
+  | fuel + 1 => do
+    let m ← K.getL M
+    if cond m.value then do
+      let r ← wait L M
+      match r with
+      | .ok _ => waitWhile L M cond fuel
+      | other => pure other
+    else pure (.ok m.value)
+
 end Condvar
 end ShuttleModel
